@@ -19,7 +19,11 @@ use std::{
 pub fn verif_dir() -> String {
     std::env::var("VERIF_DIR").unwrap_or_else(|_| "/verif".to_owned())
 }
-pub const REPO_DIR: &str = "/repo";
+// The repository under test: /repo, or a scratch worktree of it named by VERIF_REPO (used only by
+// tools/seed_regress.sh to evaluate seeded defects without touching /repo; registered commands never set it).
+pub fn repo_dir() -> String {
+    std::env::var("VERIF_REPO").unwrap_or_else(|_| "/repo".to_owned())
+}
 
 #[derive(Clone, Copy, PartialEq, Eq, Debug)]
 pub enum Tier {
